@@ -72,6 +72,15 @@ def main(tier):
     # dense type graphs (no interactions): chains, nested objects with their own allOf, shared bases
     for i, (n, mb) in enumerate([(20000, 5), (10000, 6)] if thorough else [(2500, 5)]):
         docs += c04.gen_docs(chk, n, mb, seed() * 100 + 25 + i, features='{"type","enum","allof","nested","skey"}', workers=8 if thorough else 4)
+    for i, (n, mb) in enumerate([(30000, 4), (20000, 5)] if thorough else [(9000, 4)]):
+        docs += c04.gen_docs(chk, n, mb, seed() * 100 + 28 + i, features='{"type","allof","nested","skey","dense"}', workers=8 if thorough else 4)
+    # ALL inheritance graphs over three object types (five property kinds incl. nested objects with their own
+    # allOf and shortcut keys; none, one or two bases in either order) in ALL declaration orders - exhaustive
+    g = c04.gen_exhaustive(chk, 3, '{"type","allof","graph","skey","nested"}')
+    chk.extra["inheritance_graphs_exhaustive"] = {"types": 3, "valid_graphs_in_all_orders": len(g), "exhaustive": True}
+    for x in g:
+        x["_graph"] = True
+    docs += g
     cases, meta, rej = [], {}, {}
     withallof = 0
     for n, m in enumerate(docs):
@@ -86,6 +95,8 @@ def main(tier):
         cid = "a%d" % n
         cases.append(rel.case(cid, text))
         meta[cid] = (m, text)
+        if m.get("_graph") and n % 10:
+            continue        # exhaustive graphs come in all orders already; rejection variants for a tenth of them
         # the same document with its blocks in reverse order: every schema must list the same children
         rtext = apidoc.render(d[::-1])[0]
         cases.append(rel.case("r%d" % n, rtext))
